@@ -74,6 +74,7 @@ def run_unit(unit: dict) -> dict:
         opts = pg.GenOpts(max_items=3, max_blocks=2, allow_mod_without_zid=False)
         z = zd.gen_zdir(rng, opts, n_pages=rng.choice([2, 3, 4]))
         z.write(root)
+        orig_texts = {rel_: (root / rel_).read_text() for rel_ in z.pages}
         valid = {}
         for rel in z.pages:
             c = harness.compile_path(root, Path(rel))
@@ -212,6 +213,8 @@ def run_unit(unit: dict) -> dict:
                         acc.sig(("F", r2.rc != 0, r4.rc != 0))
         # ---- scenario G: a NEW broken page (never indexed) and repeated reindex runs: every run must refuse it
         shutil.rmtree(root / ".zorg", ignore_errors=True)
+        for rel_, t_ in orig_texts.items():  # (scenario F leaves one of the generated pages broken)
+            (root / rel_).write_text(t_)
         (root / victim).write_text(good_text)
         bad_new = _flagged_variant(rng, good_text)
         if bad_new is not None and db.cli(root, "db", "create").rc == 0:
@@ -258,13 +261,15 @@ def run_unit(unit: dict) -> dict:
         for extra in ("zz_new_broken.zo", "aa_new_broken.zo", "sub/new_broken.zo"):
             if (root / extra).exists():
                 (root / extra).unlink()
+        for rel_, t_ in orig_texts.items():
+            (root / rel_).write_text(t_)
         (root / victim).write_text(good_text)
         bad_h = _flagged_variant(rng, good_text)
         if bad_h is not None and idx % 2 == 0:
             import re as _re2
 
             hcase = dict(case, scenario="H")
-            spaced, frag = "old notes.zo", "notes.zo"
+            spaced, frag = "old jottings.zo", "jottings.zo"  # (names no generated page carries)
             body_h = _re2.sub(r"\b\d{6}#[0-9A-Za-z]{2,3}\b ?", "", bad_h)
             (root / spaced).write_bytes(body_h.encode("utf-8", "surrogatepass"))
             ch = harness.compile_path(root, Path(spaced))
